@@ -182,7 +182,7 @@ ModuleCombo == [op |-> "module", k |-> "prog"]
 ModuleProg == MutProg("L")
               \o [i \in 1..Len(Globals) |-> Wr(data(Globals[i]), "built")]
               \o <<Wr(data("C"), "built"), Wr(data("X"), "built")>>
-              \o IterProg("L")
+              \o IterBegin("L") \o MutProg("L") \o <<Rd(data("L"))>> \o IterDone("L")   \* rejected: L is being iterated
               \o Cat([i \in 1..Len(Globals) |-> FreezeProg(Globals[i])])
 None == [op |-> "none", k |-> "none"]
 
